@@ -20,7 +20,15 @@ def scenario(sh: Shard, seed, idx):
 
     r = rng("C15t", seed, idx)
     s = Sched(r).install()
+    saved_cfg = (GeckoConfig.DISCOVERY_INITIAL_TIMEOUT_IN_SECONDS, GeckoConfig.DISCOVERY_TIMEOUT_IN_SECONDS)
     try:
+        if idx % 4 == 3:
+            # the two discovery settings as an application may have tuned them - also a timeout
+            # shorter than the initial wait: "in all cases within the discovery timeout"
+            GeckoConfig.DISCOVERY_INITIAL_TIMEOUT_IN_SECONDS, GeckoConfig.DISCOVERY_TIMEOUT_IN_SECONDS = r.choice([(3, 1), (2, 1.5), (0.5, 6), (4, 4), (1, 10), (5, 2)])
+            sh.count("threaded_discoveries_with_tuned_timeouts")
+            if GeckoConfig.DISCOVERY_TIMEOUT_IN_SECONDS < GeckoConfig.DISCOVERY_INITIAL_TIMEOUT_IN_SECONDS:
+                sh.count("threaded_discoveries_with_timeout_shorter_than_initial_wait")
         net = TNet(s)
         resp = []
         for i in range(r.choice([0, 1, 2, 4])):
@@ -70,7 +78,8 @@ def scenario(sh: Shard, seed, idx):
         th = MThread(s, target=run_discovery, name="harness:discover")
         th.start()
         # the responders answer every broadcast hello they hear
-        deadline = t0 + GeckoConfig.DISCOVERY_TIMEOUT_IN_SECONDS + 5
+        # (in the start ... complete() form the harness itself lingers before it calls complete())
+        deadline = t0 + max(GeckoConfig.DISCOVERY_TIMEOUT_IN_SECONDS, linger if nowait else 0) + 5
         first_arrival = {}
         heard = [0]
         while "t" not in done and s.now < deadline:
@@ -168,6 +177,7 @@ def scenario(sh: Shard, seed, idx):
         else:
             raise
     finally:
+        GeckoConfig.DISCOVERY_INITIAL_TIMEOUT_IN_SECONDS, GeckoConfig.DISCOVERY_TIMEOUT_IN_SECONDS = saved_cfg
         s.close()
 
 
